@@ -32,7 +32,8 @@ if [ "${1:-}" = "setup" ]; then
   exit 0
 fi
 
-ID="${1:?property id}"; shift
+if [ $# -lt 1 ]; then echo "usage: check.sh <ID> quick|thorough | <ID> --replay <file> | setup"; exit 2; fi
+ID="$1"; shift
 MODE="${1:-quick}"
 case "$ID" in
   C06|C12|C13) build_nightly; BIN="$H/target-nightly/release/check" ;;
@@ -40,7 +41,8 @@ case "$ID" in
 esac
 
 if [ "$MODE" = "--replay" ]; then
-  exec "$BIN" "$ID" --replay "${2:?replay file}"
+  if [ -z "${2:-}" ] || [ ! -r "$2" ]; then echo "INFRA: replay file missing or unreadable: ${2:-}"; exit 2; fi
+  exec "$BIN" "$ID" --replay "$2"
 fi
 [ -n "${VERIF_TIER:-}" ] && [ "$MODE" = "" ] && MODE="$VERIF_TIER"
 WATCHDOG=3000; [ "$MODE" = "thorough" ] && WATCHDOG=14000
